@@ -409,7 +409,7 @@ class Gen:
         if h is float:
             return r.choice([0.0, 1.5, -2.25, 1e-9, 72.0])
         if h is bytes:
-            return self.blob()
+            return bytearray(self.blob()) if r.random() < 0.25 else self.blob()   # the serialiser accepts both
         if h is bytearray:
             return bytearray(self.blob())
         if h is io.BytesIO:
@@ -418,9 +418,10 @@ class Gen:
         if origin is list:
             n = 0 if depth >= 3 else r.randrange(3)
             return [self.of(args[0] if args else typing.Any, depth + 1) for _ in range(n)]
-        if origin is dict:
+        if origin is dict or h is dict:
             n = r.randrange(3)
-            return {self.key(): self.of(args[1] if len(args) > 1 else typing.Any, depth + 1) for _ in range(n)}
+            kf = self.key if (args and args[0] is str) else self.anykey
+            return {kf(): self.of(args[1] if len(args) > 1 else typing.Any, depth + 1) for _ in range(n)}
         if origin is typing.Union or origin is types.UnionType:
             a = r.choice(args)
             if depth >= 3 and type(None) in args:
@@ -567,7 +568,61 @@ def binary_marker_paths(j, path="$") -> list[str]:
 
 
 def jtext(j) -> str:
-    return json.dumps(j)
+    """Comparable text of a serialiser output; never raises (a foreign leaf is rendered by type and repr)."""
+    return json.dumps(j, default=lambda o: {"__foreign__": type(o).__name__, "repr": repr(o)[:120]})
+
+
+def typed(x):
+    """Deep canonical view of a Python value up to container kinds only (tuple/set/list -> seq, bytearray -> bytes,
+    BytesIO position ignored); dict key TYPES, scalar types, entry order and dataclass classes are kept.
+    typed(original) == typed(restored) is `restored = norm original` of C05_roundtrip_same_object."""
+    if isinstance(x, io.BytesIO):
+        return ("bytes", x.getvalue().hex())
+    if isinstance(x, (bytes, bytearray)):
+        return ("bytes", bytes(x).hex())
+    if dataclasses.is_dataclass(x) and not isinstance(x, type):
+        return ("data", type(x).__name__, [(f.name, typed(getattr(x, f.name))) for f in dataclasses.fields(x)])
+    if isinstance(x, dict):
+        return ("dict", [(typed(k), typed(v)) for k, v in x.items()])
+    if isinstance(x, (list, tuple, set, frozenset)):
+        return ("seq", [typed(v) for v in x])
+    return (type(x).__name__, repr(x))
+
+
+def nonstring_keys(x, path="") -> list[str]:
+    """Dict keys that are not str, anywhere in the value."""
+    if dataclasses.is_dataclass(x) and not isinstance(x, type):
+        return [p for f in dataclasses.fields(x) for p in nonstring_keys(getattr(x, f.name), f"{path}.{f.name}")]
+    if isinstance(x, dict):
+        return [f"{path}[{k!r}]:{type(k).__name__}" for k in x if type(k) is not str] + \
+               [p for k, v in x.items() for p in nonstring_keys(v, f"{path}[{k!r}]")]
+    if isinstance(x, (list, tuple, set)):
+        return [p for i, v in enumerate(x) for p in nonstring_keys(v, f"{path}[{i}]")]
+    return []
+
+
+def accessor_views(o) -> dict:
+    """The views the property statement names, with types kept: full text, unit texts and unit objects, tables
+    (get_table / get_dim), image and attachment bytes.  An accessor that raises on the ORIGINAL is left out."""
+    out = {}
+
+    def put(name, fn):
+        try:
+            out[name] = fn()
+        except Exception:  # noqa  (generated instances need not support every accessor)
+            pass
+
+    if hasattr(o, "get_full_text"):
+        put("get_full_text", lambda: typed(o.get_full_text()))
+    if hasattr(o, "iterate_units"):
+        put("units", lambda: [(typed(u.get_text()) if hasattr(u, "get_text") else None, typed(u)) for u in o.iterate_units()])
+    if hasattr(o, "iterate_tables"):
+        put("tables", lambda: [(typed(tb.get_table()), typed(tb.get_dim())) for tb in o.iterate_tables()])
+    if hasattr(o, "iterate_images"):
+        put("images", lambda: [typed(im) for im in o.iterate_images()])
+    if hasattr(o, "get_table"):
+        put("get_table", lambda: (typed(o.get_table()), typed(o.get_dim())))
+    return out
 
 
 def bio_positions(x) -> list[int]:
@@ -602,46 +657,50 @@ def roundtrip_impl(x):
         return None, repr(e), "from_json"
 
 
-def same_object_views(x, y) -> list[str]:
-    """What the property statement lists: type, to_json, full text, units, tables, image bytes."""
+def same_object_views(x, y, strict: bool = True) -> list[str]:
+    """What the property statement lists: type, to_json (both modes); with strict also deep equality of the object
+    (dict key types included), binary payloads, full text, every unit, every table's get_table()/get_dim(), images."""
     from sharepoint2text.parsing.extractors.serialization import serialize_extraction
     diffs = []
     if type(x) is not type(y):
         return [f"type {type(x).__name__} -> {type(y).__name__}"]
-    try:
-        if jtext(serialize_extraction(x)) != jtext(serialize_extraction(y)):
-            diffs.append("to_json differs")
-    except Exception as e:  # noqa
-        diffs.append("to_json of restored raises " + repr(e))
+    for ib in (True, False):
+        try:
+            if jtext(serialize_extraction(x, include_binary=ib)) != jtext(serialize_extraction(y, include_binary=ib)):
+                diffs.append(f"to_json differs (include_binary={ib})")
+        except Exception as e:  # noqa
+            diffs.append("to_json of restored raises " + repr(e))
+    if not strict:
+        return diffs
     if payloads(x) != payloads(y):
         diffs.append("binary payloads differ")
-    for meth in ("get_full_text",):
-        if hasattr(x, meth):
-            try:
-                a = getattr(x, meth)()
-            except Exception:  # noqa  (generated instances may not support the accessors)
-                continue
-            try:
-                b = getattr(y, meth)()
-            except Exception as e:  # noqa
-                diffs.append(f"{meth} of restored raises {e!r}")
-                continue
-            if a != b:
-                diffs.append(f"{meth} differs")
-    for meth in ("iterate_units", "iterate_tables", "iterate_images"):
-        if hasattr(x, meth):
-            try:
-                a = [jtext(serialize_extraction(u)) for u in getattr(x, meth)()]
-            except Exception:  # noqa
-                continue
-            try:
-                b = [jtext(serialize_extraction(u)) for u in getattr(y, meth)()]
-            except Exception as e:  # noqa
-                diffs.append(f"{meth} of restored raises {e!r}")
-                continue
-            if a != b:
-                diffs.append(f"{meth} differs")
+    if typed(x) != typed(y):
+        diffs.append("restored object differs from the original (deep comparison incl. dict key types): "
+                     + first_typed_diff(typed(x), typed(y)))
+    try:
+        xa = accessor_views(copy.deepcopy(x))
+    except Exception:  # noqa
+        xa = {}
+    for name, a in xa.items():
+        try:
+            b = accessor_views(copy.deepcopy(y)).get(name, "<accessor raises on the restored object>")
+        except Exception as e:  # noqa
+            b = repr(e)
+        if a != b:
+            diffs.append(f"{name} differs: " + first_typed_diff(a, b))
     return diffs
+
+
+def first_typed_diff(a, b, path="$") -> str:
+    if type(a) is not type(b) or not isinstance(a, (tuple, list)):
+        return f"{path}: {str(a)[:80]} -> {str(b)[:80]}" if a != b else ""
+    if len(a) != len(b):
+        return f"{path}: length {len(a)} -> {len(b)}"
+    for i, (u, v) in enumerate(zip(a, b)):
+        d = first_typed_diff(u, v, f"{path}.{i}")
+        if d:
+            return d
+    return ""
 
 
 # ------------------------------------------------------------------------------------ malformed JSON stream
@@ -816,10 +875,89 @@ def cli_ast_problems() -> list[str]:
                     problems.append(f"{name}: call {ast.unparse(call)[:80]} does not pass include_binary")
                 elif not (isinstance(kw[0].value, ast.Name) and kw[0].value.id == "include_binary"):
                     problems.append(f"{name}: call of {callee} passes include_binary={ast.unparse(kw[0].value)[:40]}")
+    # the flag is only ever handed on: every read of include_binary inside a function that receives it is the value
+    # of an include_binary= keyword of a serialiser call (no `x if include_binary else strip(x)` post-processing)
+    for name, fn in funcs.items():
+        if "include_binary" not in params(fn):
+            continue
+        passed = {id(k.value) for c in ast.walk(fn) if isinstance(c, ast.Call) for k in c.keywords
+                  if k.arg == "include_binary" and
+                  (c.func.id if isinstance(c.func, ast.Name) else getattr(c.func, "attr", None)) in takes_flag}
+        reads = [n for n in ast.walk(fn) if isinstance(n, ast.Name) and n.id == "include_binary" and isinstance(n.ctx, ast.Load)]
+        if not reads:
+            problems.append(f"{name}: receives include_binary but never hands it to a serialiser")
+        for n in reads:
+            if id(n) not in passed:
+                problems.append(f"{name}: include_binary is used for something else than handing it to a serialiser (line {n.lineno})")
+    # the JSON comes from the serialiser, never from to_json() plus post-processing
+    for n in ast.walk(tree):
+        if isinstance(n, ast.Call) and isinstance(n.func, ast.Attribute) and n.func.attr == "to_json":
+            problems.append(f"cli.py calls to_json() (line {n.lineno}): the payload must come from serialize_extraction with the flag")
+    dumps = [n for n in ast.walk(tree) if isinstance(n, ast.Call) and isinstance(n.func, ast.Attribute)
+             and n.func.attr in ("dumps", "dump") and isinstance(n.func.value, ast.Name) and n.func.value.id == "json"]
+    if not dumps:
+        problems.append("no json.dumps/json.dump call found in cli.py (translator out of date)")
+    for d in dumps:
+        arg = d.args[0] if d.args else None
+        if not isinstance(arg, ast.Name):
+            problems.append(f"json.{d.func.attr} argument is not a plain variable (line {d.lineno})")
+            continue
+        binds = [a for a in ast.walk(tree) if isinstance(a, ast.Assign)
+                 and any(isinstance(x, ast.Name) and x.id == arg.id for tg in a.targets for x in ast.walk(tg))]
+        calls = [c for b_ in binds for c in ast.walk(b_.value) if isinstance(c, ast.Call)]
+        callees = [(c.func.id if isinstance(c.func, ast.Name) else getattr(c.func, "attr", None)) for c in calls]
+        if len(binds) != 1 or not calls or any(c not in takes_flag for c in callees):
+            problems.append(f"the value given to json.{d.func.attr} ({arg.id}) is not bound once to the result of the "
+                            f"flag-taking serialiser functions only (calls: {callees})")
     if not any(isinstance(n, ast.Call) and (getattr(n.func, "id", None) or getattr(n.func, "attr", None)) in takes_flag
                for n in ast.walk(tree)):
         problems.append("no serialiser call found in cli.py (translator out of date)")
     return problems
+
+
+def doc_replay(label: str, p: Path) -> dict:
+    """Replay entry for a document: fixtures by path; generated files (temporary) inline as base64."""
+    d = {"input": label, "document": str(p)}
+    try:
+        if not label.startswith(("fixture:", "generated:xls-result", "shrunk:")) and p.is_file() and p.stat().st_size < 200_000:
+            d["document_base64"] = base64.b64encode(p.read_bytes()).decode("ascii")
+            d["document_note"] = "generated for this run; write document_base64 to a file with the same suffix to replay"
+    except Exception:  # noqa
+        pass
+    return d
+
+
+def make_xls_cases(td: Path):
+    """Legacy .xls inputs derived from the fixture mwe.xls (header row colA, colB) by in-place record patches (no
+    XLS writer is installed): (1) header cell B1 turned from a LABELSST into an RK number record holding 2020 — a
+    numeric header cell; (2) the two shared strings replaced by "_bytesio" and "" — a header cell named like a marker."""
+    import re
+    import struct
+    src = common.REPO / "sharepoint2text" / "tests" / "resources" / "legacy_ms" / "mwe.xls"
+    out = []
+    try:
+        raw = src.read_bytes()
+    except Exception:  # noqa
+        return out, ["mwe.xls missing"]
+    problems = []
+    hits = [m.start() for m in re.finditer(rb"\xfd\x00\x0a\x00\x00\x00\x01\x00", raw)]
+    if len(hits) == 1:
+        b = bytearray(raw)
+        b[hits[0]:hits[0] + 2] = b"\x7e\x02"
+        b[hits[0] + 10:hits[0] + 14] = struct.pack("<I", (2020 << 2) | 2)
+        q = td / "numeric_header.xls"
+        q.write_bytes(bytes(b))
+        out.append(("xls-numeric-header-cell", q))
+    else:
+        problems.append("LABELSST record of B1 not found in mwe.xls")
+    sst = b"\x04\x00\x00colA\x04\x00\x00colB"
+    if raw.count(sst) == 1:
+        q = td / "marker_header.xls"
+        q.write_bytes(raw.replace(sst, b"\x08\x00\x00_bytesio\x00\x00\x00"))
+        out.append(("xls-marker-named-header", q))
+    else:
+        problems.append("shared strings colA/colB not found in mwe.xls")
+    return out, problems
 
 
 def run_cli(argv):
@@ -881,10 +1019,10 @@ def run(ctx):
     reg, reg_problems = gen_registry(ctx)
 
     # ---- proofs
-    ctx.prove("C05/Props.v", ["C05/Proofs.vo", "C05/Roundtrip.vo"], expected=[
+    ctx.prove("C05/Props.v", ["C05/Proofs.vo", "C05/Roundtrip.vo", "C05/Tables.vo"], expected=[
         "C05_dumps_ok", "C05_roundtrip_partial", "C05_roundtrip_value", "C05_no_binary", "C05_position_restored",
         "C05_cli_shape", "C05_cli_unit_shape", "C05_markers_refuted_any_registry", "C05_xlsx_cell_json_clean",
-        "C05_cli_all_or_nothing"])
+        "C05_cli_all_or_nothing", "C05_roundtrip_same_object", "C05_nonstring_keys_refuted"])
     ok_inst, _ = ctx.prove("C05/Inst.v", ["Gen/C05Registry.vo", "C05/Corr.vo", "C05/Proofs.vo"], expected=[
         "C05_registry_wf", "C05_hints_known", "C05_defaults_ok", "C05_markers_never_confused_refuted",
         "C05_roundtrip_hyps_satisfiable"])
@@ -915,22 +1053,46 @@ def run(ctx):
                 setattr(o, fld, pad)
                 insts.append(o)
 
+    # XLS-like results: rows keyed by header cells — str keys (the hint), and int/float/bool/None keys (what a
+    # reader handing the NATIVE header value to the row dict would produce), incl. 1 next to "1"
+    if "XlsSheet" in reg and "XlsContent" in reg:
+        for hdr in (["a", "b"], ["2020", "1"], [2020, "x"], [1, "1"], [1.5, True], [None, "k"], [True, 1, "1"]):
+            rows = [{h: g.scalar() for h in hdr} for _ in range(2)]
+            try:
+                insts.append(reg["XlsContent"](sheets=[reg["XlsSheet"](name="S", data=rows, text="t")]))
+            except Exception:  # noqa
+                pass
+    for name in ("XlsImage", "PptImage", "DocImage"):
+        if name in reg:
+            o = g.instance(name)
+            if hasattr(o, "data"):
+                o.data = bytearray(b"BM\x00\x01dib")
+                insts.append(o)
+
     ser_cases, pipe_cases, hyp_cases, restored = [], [], [], []
+    kept = []
     for x in insts:
         tb = Tables()
         vt = val_term(x, tb)
         pos0 = bio_positions(x)
-        jt = S._serialize_for_json(x, include_binary=True)
-        jf = S._serialize_for_json(x, include_binary=False)
-        tj = S.serialize_extraction(x)
+        try:
+            jt = S._serialize_for_json(x, include_binary=True)
+            jf = S._serialize_for_json(x, include_binary=False)
+            tj = S.serialize_extraction(x)
+            jnb = S._serialize_for_json(null_binary(x), include_binary=True)
+        except Exception as e:  # noqa  — the serialiser itself must never raise on the value universe
+            ctx.finding("serializer-raises:generated-instance", f"_serialize_for_json raises {e!r} on a {type(x).__name__}",
+                        {"instance": vt[:6000], "python": repr(x)[:3000]})
+            continue
         # oracle: BytesIO positions restored
         if bio_positions(x) != pos0:
             ctx.finding("bytesio-position-moved", f"serialising {type(x).__name__} moved a BytesIO position",
-                        {"instance": vt[:4000]})
+                        {"instance": vt[:4000], "python": repr(x)[:3000]})
         # oracle: without binary == with binary on the value whose binary leaves are None
-        if jtext(S._serialize_for_json(null_binary(x), include_binary=True)) != jtext(jf) if not other_leaves(x) else False:
-            ctx.finding("no-binary-differs:generated-instance", f"include_binary=False changed more than the binary fields ({type(x).__name__})",
-                        {"instance": vt[:4000]})
+        if not other_leaves(x) and jtext(jnb) != jtext(jf):
+            ctx.finding("no-binary-differs:generated-instance",
+                        f"include_binary=False changed more (or less) than the binary fields ({type(x).__name__})",
+                        {"instance": vt[:4000], "python": repr(x)[:3000]})
         ser_cases.append(f"({vt}, {tb.enc_table()}, {json_term(jt)}, {json_term(jf)}, {json_term(tj)})")
         y, err, stage = roundtrip_impl(x)
         restored.append((y, err, stage))
@@ -938,12 +1100,15 @@ def run(ctx):
         collect_marker_strs(jt, tb)
         pipe_cases.append(f"({vt}, {tb.enc_table()}, {tb.dec_table()}, {rt})")
         hyp_cases.append(vt)
+        kept.append(x)
         nontriv = bool(payloads(x)) or any(dataclasses.is_dataclass(getattr(x, f.name)) or
                                            (isinstance(getattr(x, f.name), list) and getattr(x, f.name) and
                                             dataclasses.is_dataclass(getattr(x, f.name)[0]))
                                            for f in dataclasses.fields(x))
         ctx.case(("inst", vt), nontriv, kind="instance:" + ("marker-key" if has_marker_key(x) else
-                                                            "other-leaf" if other_leaves(x) else "clean"))
+                                                            "other-leaf" if other_leaves(x) else
+                                                            "non-string-key" if nonstring_keys(x) else "clean"))
+    insts = kept
 
     mark("instances-python")
     f_ser = POOL.submit(coq_eval_shards, ctx, "ser", PRE, "ser_case", ser_cases, shard=100,
@@ -951,6 +1116,7 @@ def run(ctx):
     f_pipe = POOL.submit(coq_eval_shards, ctx, "pipe", PRE, "(pipe_case R WS)", pipe_cases, shard=100,
                          ty="val * list (bytes * str) * list (str * option bytes) * option val")
     f_hyps = POOL.submit(coq_eval_shards, ctx, "hyps", PRE, "(hyps R WS)", hyp_cases, shard=200, ty="val")
+    f_hyps2 = POOL.submit(coq_eval_shards, ctx, "hyps2", PRE, "(hyps_strict R WS)", hyp_cases, shard=200, ty="val")
 
     def finish_instances():
         oks, fs, logs = f_ser.result()
@@ -966,6 +1132,10 @@ def run(ctx):
         okh, nh, logh = f_hyps.result()
         ctx.obligation("evaluation of the theorem hypotheses on the instances", okh, logh[:800])
         nohyp = set(nh)
+        okh2, nh2, logh2 = f_hyps2.result()
+        ctx.obligation("evaluation of the same-object hypotheses on the instances", okh2, logh2[:800])
+        nostrict = set(nh2)
+        ctx.count("instances-satisfying-same-object-hypotheses", len(insts) - len(nostrict))
         ctx.count("instances-satisfying-roundtrip-hypotheses", len(insts) - len(nohyp))
         if fs:
             ctx.extra["ser_disagreements"] = [ser_cases[i][:4000] for i in fs[:4]]
@@ -974,32 +1144,40 @@ def run(ctx):
 
         # property oracle on the implementation
         marker_hits = 0
+        nonstr_changed = 0
         for i, x in enumerate(insts):
             y, err, stage = restored[i]
             others = other_leaves(x)
             if stage == "dumps" and not others:
                 ctx.finding("dumps-fails:generated-instance", f"{type(x).__name__}: json.dumps(to_json()) fails without a foreign leaf: {err}",
-                            {"instance": hyp_cases[i][:6000]})
+                            {"instance": hyp_cases[i][:6000], "python": repr(x)[:3000]})
                 continue
+            py = repr(x)[:3000]
             if i in nohyp:
                 # outside the theorem: only the recorded marker confusion is reported
-                bad = (y is None and stage == "from_json") or (y is not None and same_object_views(x, y))
+                bad = (y is None and stage == "from_json") or (y is not None and same_object_views(x, y, strict=False))
                 if bad and has_marker_key(x) and not others:
                     marker_hits += 1
                     ctx.finding("marker-key-in-content-dict",
                                 "a dict key equal to _type/_bytes/_bytesio (document content) is taken for a marker by from_json",
-                                {"instance": hyp_cases[i][:6000], "error": err})
+                                {"instance": hyp_cases[i][:6000], "python": py, "error": err})
                 continue
             if y is None:
                 ctx.finding(f"roundtrip-raises:generated-instance:{stage}",
                             f"well-typed instance of {type(x).__name__} does not survive to_json/from_json: {err}",
-                            {"instance": hyp_cases[i][:6000], "stage": stage, "error": err})
+                            {"instance": hyp_cases[i][:6000], "python": py, "stage": stage, "error": err})
                 continue
-            diffs = same_object_views(x, y)
+            # C05_roundtrip_partial: class and to_json (both modes); C05_roundtrip_same_object (all keys str):
+            # the object itself, payloads, full text, units, tables, images
+            strict = i not in nostrict
+            diffs = same_object_views(x, y, strict=strict)
             if diffs:
                 ctx.finding("roundtrip-differs:generated-instance", f"restored {type(x).__name__} differs: {diffs}",
-                            {"instance": hyp_cases[i][:6000], "diffs": diffs})
+                            {"instance": hyp_cases[i][:6000], "python": py, "diffs": diffs, "strict": strict})
+            elif not strict and nonstring_keys(x):
+                nonstr_changed += 1 if typed(x) != typed(y) else 0
         ctx.count("marker-confusions-observed", marker_hits)
+        ctx.count("non-string-key-instances-restored-with-str-keys(refutation shape)", nonstr_changed)
 
     mark("instances-oracle")
     # ---- D2: perturbed JSON stream for the deserialiser
@@ -1089,6 +1267,10 @@ def run(ctx):
         td = Path(tds)
         docs = [("fixture:" + str(p.relative_to(common.REPO / "sharepoint2text" / "tests" / "resources")), p)
                 for p in fixture_files()] + make_xlsx_cases(td)
+        xls_docs, xls_problems = make_xls_cases(td)
+        docs += xls_docs
+        ctx.obligation("generated .xls inputs (numeric header cell, marker-named header cell) could be derived", not xls_problems,
+                       "; ".join(xls_problems))
         multi = None
         unit_bin, result_bin = [], set()    # fixtures whose units / results carry binary payloads
         for label, p in docs:
@@ -1100,6 +1282,13 @@ def run(ctx):
             if len(rs) > 1 and multi is None and p.stat().st_size < 3_000_000:
                 multi = (label, p)
             for k, x in enumerate(rs):
+              try:
+                nsk = nonstring_keys(x)
+                if nsk:
+                    ctx.finding(f"non-string-dict-key:{label}",
+                                f"extraction result of {label} holds dict keys that are not str ({nsk[:3]}) although every dict "
+                                f"hint of the registry is Dict[str, ...]: from_json can only restore str keys",
+                                {**doc_replay(label, p), "keys": nsk[:10], "how": "list(sharepoint2text.read_file(document))"})
                 key = label if len(rs) == 1 else f"{label}#{k}"
                 objs = [("result", x)]
                 try:
@@ -1119,7 +1308,7 @@ def run(ctx):
                     except Exception as e:  # noqa
                         fk = label if label.startswith("xlsx-") else f"to_json-not-encodable:{label}"
                         ctx.finding(fk, f"json.dumps(to_json()) raises {e!r} for {label} ({role}); non-JSON leaves: {others[:3]}",
-                                    {"document": str(p), "role": role, "leaves": others[:10],
+                                    {**doc_replay(label, p), "role": role, "leaves": others[:10],
                                      "how": "list(sharepoint2text.read_file(document)); json.dumps(x.to_json())"})
                         continue
                     if role != "result":
@@ -1131,21 +1320,26 @@ def run(ctx):
                         diffs = ["from_json raises " + repr(e)]
                     if diffs:
                         fk = "marker-key-in-content-dict" if has_marker_key(o) else f"roundtrip-differs:{label}"
+                    if nsk and not has_marker_key(o):
+                        continue   # reported above as non-string-dict-key with the same document
                         ctx.finding(fk, f"extraction result of {label} is not restored by from_json: {diffs}",
-                                    {"document": str(p), "diffs": diffs})
+                                    {**doc_replay(label, p), "diffs": diffs})
                     jf = S.serialize_extraction(o, include_binary=False)
                     if jtext(S.serialize_extraction(null_binary(o), include_binary=True)) != jtext(jf):
                         ctx.finding(f"no-binary-differs:{label}", "include_binary=False changed more than the binary fields",
-                                    {"document": str(p)})
+                                    doc_replay(label, p))
                     if len(text) < 40_000 and len(results_small) < ctx.n(12, 40):
                         results_small.append((key, o))
+              except Exception as e:  # noqa  — never let an implementation exception stop the harness
+                ctx.finding(f"implementation-raises:{label}", f"an accessor/serialiser call raises {e!r} on the result of {label}",
+                            {**doc_replay(label, p), "error": repr(e), "trace": __import__("traceback").format_exc()[-1500:]})
 
         mark("documents")
         # ---- CLI: four JSON modes, on single results, on multi-result fixtures, on a generated archive whose members
         # carry images (binary payloads in the units AND in the extraction objects), and on combinations of real
         # image-bearing results with shortened payloads (small enough for the model comparison in Coq)
         cli_inputs = []                     # (label, path, results)
-        cli_docs = [(lb, p) for lb, p in docs if lb.startswith("xlsx-")]
+        cli_docs = [(lb, p) for lb, p in docs if lb.startswith("xlsx-") or lb.startswith("xls-")]
         for want in ("fixture:modern_ms", "fixture:plain_text", "fixture:mails", "fixture:html", "fixture:open_office",
                      "fixture:legacy_ms"):
             c = [(lb, p) for lb, p in docs if lb.startswith(want) and p.stat().st_size < 400_000]
@@ -1157,6 +1351,16 @@ def run(ctx):
                 cli_inputs.append((label, p, list(sharepoint2text.read_file(str(p)))))
             except Exception:  # noqa
                 continue
+        # results whose content dicts carry marker-named keys (the known finding's shape): the CLI output must still be
+        # exactly serialize_extraction(include_binary=flag) of them
+        anyp = docs[0][1]
+        for hdr in ("_bytes", "_bytesio", "_type"):
+            try:
+                w1 = reg["XlsContent"](sheets=[reg["XlsSheet"](name="S", data=[{hdr: 5, "name": "a"}, {hdr: "aGk=", "name": "b"}], text="t")])
+                cli_inputs.append((f"generated:xls-result-with-{hdr}-header", anyp, [w1]))
+                cli_inputs.append((f"generated:xls-result-with-{hdr}-header-twice", anyp, [copy.deepcopy(w1), copy.deepcopy(w1)]))
+            except Exception:  # noqa
+                pass
         unit_bin.sort(key=lambda lp: lp[1].stat().st_size)
         picks = unit_bin[:ctx.n(3, 6)]
         ctx.extra["cli_binary_unit_sources"] = [lb for lb, _ in picks]
@@ -1218,17 +1422,25 @@ def run(ctx):
                     mode = f"{flag}{'+binary' if binary else ''}:{several}"
                     ctx.case(("cli", label, flag, binary), True, kind=f"cli:{mode}" +
                              (":binary-in-units" if any(payloads(u) for r in copy.deepcopy(base) for u in r.iterate_units()) else ""))
-                    if flag == "--json":
-                        per = [S.serialize_extraction(r, include_binary=binary) for r in rs]
-                    else:
-                        per = [[S.serialize_extraction(u, include_binary=binary) for u in r.iterate_units()] for r in rs]
+                    try:
+                        if flag == "--json":
+                            per = [S.serialize_extraction(r, include_binary=binary) for r in rs]
+                        else:
+                            per = [[S.serialize_extraction(u, include_binary=binary) for u in r.iterate_units()] for r in rs]
+                    except Exception as e:  # noqa
+                        ctx.finding(f"implementation-raises:cli-expected:{label}", f"serialize_extraction/iterate_units raises {e!r} for {label}",
+                                    {"input": label, "document": str(p), "error": repr(e)})
+                        continue
                     want_payload = per[0] if len(rs) == 1 else per
                     try:
                         want_text = json.dumps(want_payload) + "\n"
                     except Exception as e:  # noqa
                         want_text = None
-                    rp = {"input": label, "document": str(p), "argv": argv[1:], "exit": rc, "stdout_len": len(out),
+                    rp = {**doc_replay(label, p), "argv": argv[1:], "exit": rc, "stdout_len": len(out),
                           "stderr": err[-300:], "results": [type(r).__name__ for r in rs],
+                          **({"results_python": [repr(r)[:1500] for r in rs],
+                              "document_note": "results are constructed objects handed to the CLI through a patched read_file"}
+                             if label.startswith("generated:xls-result") else {}),
                           "how": "list(sharepoint2text.read_file(document)) gives the results (for shrunk:* inputs the binary "
                                  "payloads are cut to 6 bytes and several fixtures' results are concatenated); "
                                  "sharepoint2text.cli.main([document] + argv)"}
